@@ -50,3 +50,40 @@ def main():
 
 if __name__ == "__main__":
     main()
+
+
+RB, RE_ = "<!-- REFACTOR-TABLE-BEGIN -->", "<!-- REFACTOR-TABLE-END -->"
+
+
+def refactor_rows():
+    out = []
+    base = os.path.join(VERIF, "refactors")
+    for d in sorted(os.listdir(base)) if os.path.isdir(base) else []:
+        mp = os.path.join(base, d, "meta.json")
+        if not os.path.exists(mp):
+            continue
+        with open(mp) as f:
+            m = json.load(f)
+        und = m.get("undecided") or {}
+        out.append("| `%s` | %s | %s | %s | %s | %s |" % (d, m["property"], m.get("lines_changed", "?"), short(m.get("first_run", "?"), 260),
+                                                     "none" if not m.get("alarms") else "**%s**" % ", ".join(m["alarms"]), ", ".join("%s: %d" % kv for kv in sorted(und.items())) or "-"))
+    return out
+
+
+def refactor_main():
+    head = ["| refactoring (`/verif/refactors/<name>/`) | written for | changed lines | alarms on arrival (all of them false) | alarms today | rule instances undecided on the refactored tree |",
+            "|---|---|---|---|---|---|"]
+    table = "\n".join(head + refactor_rows())
+    p = os.path.join(VERIF, "DESIGN.md")
+    with open(p) as f:
+        s = f.read()
+    if RB in s:
+        s = s[: s.index(RB) + len(RB)] + "\n" + table + "\n" + s[s.index(RE_):]
+        with open(p, "w") as f:
+            f.write(s)
+    else:
+        print(table)
+
+
+if __name__ == "__main__":
+    refactor_main()
